@@ -418,16 +418,23 @@ def model_check(ctx):
             ("mutant flag no-restore-on-raise", cfg("C_m2", '{"no-restore-on-raise"}', 1, "FALSE"), ("InvPointer", "InvWrites")),
             ("mutant flag star-second-instance", cfg("C_m3", '{"star-second-instance"}', 1, "FALSE"), ("InvInstance",)),
             ("pinned-tree flag rel-sibling-name", cfg("C_m4", '{"rel-sibling-name"}', 1, "TRUE"), ("InvInstance",)),
-            ("witnesses", cfg("C_w", "{}", 1, "FALSE", "INVARIANT W_NoCrossCall\nCHECK_DEADLOCK FALSE\n"), ("W_NoCrossCall",)),
-            ("witnesses", cfg("C_w2", "{}", 1, "FALSE", "INVARIANT W_NoCaught\nCHECK_DEADLOCK FALSE\n"), ("W_NoCaught",)),
-            ("witnesses", cfg("C_w3", "{}", 1, "FALSE", "INVARIANT W_NoSharedSeen\nCHECK_DEADLOCK FALSE\n"), ("W_NoSharedSeen",)),
-            ("witnesses", cfg("C_w4", "{}", 1, "FALSE", "INVARIANT W_NoTask\nCHECK_DEADLOCK FALSE\n"), ("W_NoTask",))]
-    outs = parallel([(lambda c=c: tlc.run("Contexts", c, ctx.scratch, workers=max(1, min(4, CAP // 2)), env=JVM, timeout=3000))
-                     for (_, c, _) in runs], max_workers=max(1, min(len(runs), CAP // 2)))
+            ("witnesses (cross-context call, exception across contexts, shared module state, created task)",
+             cfg("C_w", "{}", 1, "FALSE", "INVARIANT WitTrack\nPOSTCONDITION WitReport\nCHECK_DEADLOCK FALSE\n"), "witnesses")]
+    outs = parallel([(lambda c=c, e=e: tlc.run("Contexts", c, ctx.scratch, workers=1 if e == "witnesses" else max(1, min(4, CAP // 2)),
+                                                env=JVM, timeout=3000))
+                     for (_, c, e) in runs], max_workers=max(1, min(len(runs), CAP // 2)))
     nw = 0
     for (label, _, expect), res in zip(runs, outs):
         ctx.add_tlc(res, label)
-        if expect is None:
+        if expect == "witnesses":
+            seen = set()
+            for i in res.infos:
+                seen |= set(i.get("seen", []))
+            missing = [w for w in ("W_NoCrossCall", "W_NoCaught", "W_NoSharedSeen", "W_NoTask") if w not in seen]
+            if missing or not res.ok:
+                raise MachineryFailure("witnesses not reached in Contexts.tla: %s" % (missing or res.violated))
+            nw += 4
+        elif expect is None:
             if not res.ok:
                 ctx.report({"clause": "model:" + res.violated}, "Contexts.tla violates %s (%s)" % (res.violated, label), {"cex": res.cex})
         else:
